@@ -389,6 +389,9 @@ func parseDesignationPart(part string, isNs bool) (*Selector, bool) {
 				e := Expr{Key: m[1], Op: m[2]}
 				if m[3] != "" {
 					e.Values = strings.Split(m[3], " ")
+				} else if e.Op == "In" || e.Op == "NotIn" {
+					// In/NotIn need at least one value: "[]" is how Go prints the one-element list holding the empty string
+					e.Values = []string{""}
 				}
 				sel.Exprs = append(sel.Exprs, e)
 				continue
